@@ -205,10 +205,10 @@ class TaskNetwork(AbstractTaskNetwork):
             + sum(map(hash, self.constraints))
         )
 
-    def clone(self):
+    def clone(self, new_actions=None):
         new = TaskNetwork(self._env)
         new._variables = self._variables.copy()
-        new._subtasks = self._subtasks[:]
+        new._subtasks = [st.clone(new_actions) for st in self._subtasks]
         new._constraints = self._constraints[:]
         return new
 
